@@ -262,7 +262,7 @@ func runC02(c *Ctx) error {
 			}
 		}
 		frag := frags[(i/len(otKinds))%len(frags)]
-		grand := &blockLog{r: r.Fork()}
+		grand := &blockLog{r: r.Fork(), skipKey: true}
 		gIn, eIn := bitsToBig(x), bitsToBig(y)
 		if i%4 == 2 {
 			// the same bits given as a NEGATIVE big.Int (what IOArg.Parse returns for a negative
